@@ -36,23 +36,24 @@ func build(expr logql.Expr, sel SampleSelector, params EvalParams) (_ StepIterat
 	case *logql.RangeAggregationExpr:
 		var (
 			qrange = expr.Range
-			start  = params.Start
-			end    = params.End
+			qstart = params.Start
+			qend   = params.End
 		)
+		// Offset shifts the sampled interval, not the evaluation grid.
 		if o := qrange.Offset; o != nil {
-			start = start.Add(-o.Duration)
-			end = end.Add(-o.Duration)
+			qstart = qstart.Add(-o.Duration)
+			qend = qend.Add(-o.Duration)
 		}
 		// Query samples for first step.
-		qstart := start.Add(-qrange.Range)
+		qstart = qstart.Add(-qrange.Range)
 
-		iter, err := sel(expr, qstart, end)
+		iter, err := sel(expr, qstart, qend)
 		if err != nil {
 			return nil, errors.Wrap(err, "get samples iterator")
 		}
 		defer closeOnError(iter)
 
-		return RangeAggregation(iter, expr, start, end, params.Step)
+		return RangeAggregation(iter, expr, params.Start, params.End, params.Step)
 	case *logql.VectorAggregationExpr:
 		iter, err := build(expr.Expr, sel, params)
 		if err != nil {
